@@ -10,7 +10,7 @@
 (* what happens AT THE IDENTITY PROVIDER (the token family is revoked, the  *)
 (* user leaves the group, the IdP rate-limits / fails / is unreachable),    *)
 (* the passing of time, and the expiry of the authenticator's group cache.  *)
-(* The authenticator's answers are derived (operators Chain*), and the      *)
+(* The authenticator's answers are derived (operators ChainXxx), and the     *)
 (* proxy's ladder (ProxySession!Respond) runs on them.                      *)
 (*                                                                         *)
 (* Mechanism modelled here (the rest is ProxySession's):                    *)
@@ -30,7 +30,9 @@
 (***************************************************************************)
 EXTENDS ProxySession
 
-CONSTANTS TokTTL      \* expires_in the IdP grants, in units (an element of Expiries)
+CONSTANTS TokTTL,     \* expires_in the IdP grants, in units (an element of Expiries)
+          LenientValidate  \* FALSE = the code; TRUE = a deliberately wrong variant in which /validate treats IdP trouble
+                           \* as "still valid" (vacuity guard: TLC must then refute E_RevocationReaches)
 
 Avails  == {"up", "e429", "e503", "down"}
 Members == {"yes", "no", "nogroups"}       \* the user's groups at the IdP: contain the allowed one / do not / are empty
@@ -50,7 +52,10 @@ ChainRefresh(i) ==
      [] OTHER -> "ok"
 
 \* GET /validate -> ValidateSessionState -> IdP introspect: ANY failure (inactive, 429, 5xx, transport) is `false` -> 401
-ChainValidate(i) == IF i.avail = "up" /\ i.fam = "live" THEN "ok" ELSE "s401"
+ChainValidate(i) ==
+   IF i.avail = "up" /\ i.fam = "live" THEN "ok"
+   ELSE IF LenientValidate /\ i.avail # "up" THEN "ok"
+   ELSE "s401"
 
 \* GET /profile -> GroupCache -> (miss) ValidateGroupMembership -> IdP userinfo
 \*   hit: the cached list, whatever the IdP would say now
@@ -92,20 +97,18 @@ OutNow(i, gc, p) == p.group /\ i.member # "yes" /\ gc # "member"
 
 InOutage(g, c, p, i, gc) == g.firstFail # NoGrace \/ EffUnavail(c, p, ChainAns(i, gc))
 
-\* a revoked family stops reaching the upstream within one validity period; an IdP outage can stretch
-\* that by the grace period at most
+\* a revoked family stops reaching the upstream within one validity period, except inside an outage episode
+\* (whose own length C05 bounds: a sparse browser may meet its first due check during an outage)
 E_RevocationReaches(c, g, lg, p, i, gc, req, o) ==
-   (o.reached /\ NonSkip(req) /\ lg.sinceRevoke > ValidTTL) =>
-      (InOutage(g, c, p, i, gc) /\ lg.sinceRevoke <= ValidTTL + GraceTTL + 1)
+   (o.reached /\ NonSkip(req) /\ lg.sinceRevoke > ValidTTL) => InOutage(g, c, p, i, gc)
 
 \* the same for group membership, counted from the moment the cache no longer covers for the IdP
 E_RemovalReaches(c, g, lg, p, i, gc, req, o) ==
-   (o.reached /\ NonSkip(req) /\ lg.sinceOut > ValidTTL) =>
-      (InOutage(g, c, p, i, gc) /\ lg.sinceOut <= ValidTTL + GraceTTL + 1)
+   (o.reached /\ NonSkip(req) /\ lg.sinceOut > ValidTTL) => InOutage(g, c, p, i, gc)
 
 \* a due check against a healthy IdP that has revoked / removed refuses at once and ends the session
 E_DeniedAtOnce(c, g, lg, p, i, gc, req, o) ==
-   (NonSkip(req) /\ Sound(c, p) /\ Due(c) # "none" /\ i.avail = "up" /\ (i.fam = "revoked" \/ OutNow(i, gc, p) /\ i.member = "no"))
+   (NonSkip(req) /\ Sound(c, p) /\ Due(c) # "none" /\ i.avail = "up" /\ (i.fam = "revoked" \/ (OutNow(i, gc, p) /\ i.member = "no")))
       => (~o.reached /\ o.after.kind = "none")
 
 \* a session the IdP vouches for keeps working, whatever happened before
@@ -115,7 +118,7 @@ E_KeepsWorking(c, g, lg, p, i, gc, req, o) ==
 
 \* IdP trouble alone never ends a session whose checks are not due
 E_NoCheckNoCall(c, g, lg, p, i, gc, req, o) ==
-   (NonSkip(req) /\ Sound(c, p) /\ Due(c) = "none") => (o.reached \/ req.kind = "authonly") /\ o.calls = {}
+   (NonSkip(req) /\ Sound(c, p) /\ Due(c) = "none") => ((o.reached \/ req.kind = "authonly") /\ o.calls = {})
 
 LifeRules(c, g, lg, p, i, gc, req, o) ==
    [ C04_E2E_RevocationReaches |-> E_RevocationReaches(c, g, lg, p, i, gc, req, o),
